@@ -162,6 +162,9 @@ LcShape(i) ==
     [] i = 6 -> << [l |-> 1, terms |-> << <<1, 1>>, <<1, LastL>> >>], [l |-> 2, terms |-> << <<-1, LastL>>, <<7, 0>> >>] >>
     \* 99 = a random field element (the harness draws it); a random constant as well
     [] i = 7 -> << [l |-> 1, terms |-> << <<99, 1>>, <<-1, LastL>>, <<99, 0>> >>] >>
+    \* the constant term first, and in the middle (the order of the terms carries no meaning)
+    [] i = 8 -> << [l |-> 1, terms |-> << <<5, 0>>, <<2, 1>>, <<-1, LastL>> >>],
+                   [l |-> 2, terms |-> << <<1, 1>>, <<4, 0>>, <<1, LastL>> >>] >>
 LcQs(lcs, i) ==
   LET E == {lcs[j].l : j \in DOMAIN lcs} IN
   CASE i = 1 -> {<<e, 1, 1>> : e \in E}
@@ -430,6 +433,12 @@ PlansC04(st) ==
                     Contributing(polys[x[1]]) \/ x[2] # "drop_shifted"}}
   \cup {Plan("unlabel", "not_accept", <<[M("relabel_bound") EXCEPT !.l = l, !.d = NONE]>>) :
           l \in {x \in BoundedLabels : (Contributing(polys[x]) \/ S # "sonic") /\ ~SameBound(NONE, polys[x].bound)}}
+  \* the degree-bound parts of two commitments EXCHANGED (their sum is unchanged: only independent challenges
+  \* per polynomial keep the two apart)
+  \cup {Plan("swap_shifted", "not_accept", <<[M("foreign_shifted") EXCEPT !.l = ll[1], !.l2 = ll[2]],
+                                              [M("foreign_shifted") EXCEPT !.l = ll[2], !.l2 = ll[1]]>>) :
+          ll \in {x \in BoundedLabels \X BoundedLabels : x[1] < x[2] /\ S # "sonic"
+                                                         /\ (Contributing(polys[x[1]]) \/ Contributing(polys[x[2]]))}}
   \cup {Plan("foreign_shifted", "not_accept", <<[M("foreign_shifted") EXCEPT !.l = ll[1], !.l2 = ll[2]]>>) :
           ll \in {x \in BoundedLabels \X BoundedLabels : x[1] # x[2] /\ S # "sonic"}}
 
